@@ -26,6 +26,20 @@ from pymeeus.Angle import Angle
 mod = importlib.import_module('pymeeus.' + INPUTS['planet'])
 P = getattr(mod, INPUTS['planet'])
 bad = None
+if INPUTS['kind'] == 'elong':
+    from pymeeus.Sun import Sun
+    for jd in (2451545.0, 2448976.5, 2460000.5, 2415020.5, 2305447.5, 2634166.5, 2455000.5, 2457000.5):
+        e = Epoch(jd)
+        ra, dec, elon = P.geocentric_position(e)
+        ls, bs, rs = Sun.apparent_geocentric_position(e)
+        ras, decs = ecliptical2equatorial(ls, bs, true_obliquity(e))
+        c = sin(dec.rad()) * sin(decs.rad()) + cos(dec.rad()) * cos(decs.rad()) * cos(ra.rad() - ras.rad())
+        ang = degrees(acos(max(-1.0, min(1.0, c))))
+        if abs(ang - float(elon)) > 0.02:
+            bad = 'JDE %r: reported elongation %r, angle to the Sun\'s apparent direction at the same epoch %r' % (jd, float(elon), ang); break
+    if bad:
+        print('REPRODUCED %s: %s.geocentric_position: %s' % (SITE, INPUTS['planet'], bad)); sys.exit(1)
+    print('not reproduced'); sys.exit(0)
 calls = []
 origP, origE = P.geometric_heliocentric_position, Earth.geometric_heliocentric_position
 def wrapP(ep, *a, **k):
@@ -75,6 +89,41 @@ for jd in (2451545.0, 2448976.5, 2460000.5, 2415020.5, 2305447.5, 2634166.5):
         bad = 'elongation %r' % float(elon); break
 if bad:
     print('REPRODUCED %s: %s.geocentric_position: %s' % (SITE, INPUTS['planet'], bad)); sys.exit(1)
+print('not reproduced'); sys.exit(0)
+'''
+
+
+MINOR_REPLAY = r'''
+from math import sin, cos, acos, degrees
+from pymeeus.Angle import Angle
+from pymeeus.Epoch import Epoch
+from pymeeus.Minor import Minor
+bad = None
+def sep(a, b):
+    c = sin(a[1].rad()) * sin(b[1].rad()) + cos(a[1].rad()) * cos(b[1].rad()) * cos(a[0].rad() - b[0].rad())
+    return degrees(acos(max(-1.0, min(1.0, c))))
+T = Epoch(1998, 4, 14.4358)
+# the three branches must join at their switch points: a body seen one light-time earlier in one branch and not in its
+# neighbour jumps by several 1e-3 degree there
+for q, dt in ((1.487469, 113.0), (0.5, 30.0), (0.3, -10.0), (2.0, 400.0)):
+    pos = {}
+    for e in (1.0, 1.0 - 1e-7, 0.98, 0.98 - 1e-10):
+        m = Minor(q, e, Angle(104.69219), Angle(222.10887), Angle(1.32431), T)
+        ep = Epoch(T.jde() + dt)
+        before = ep.jde()
+        r = m.geocentric_position(ep)
+        if ep.jde() != before:
+            bad = 'the caller\'s Epoch moved'
+        pos[e] = (r[0], r[1])
+    d1, d2 = sep(pos[1.0], pos[1.0 - 1e-7]), sep(pos[0.98], pos[0.98 - 1e-10])
+    if d1 > 5e-4:
+        bad = 'q=%r dt=%r: parabolic and e = 1 - 1e-7 positions %r degrees apart' % (q, dt, d1)
+    if d2 > 1e-4:
+        bad = 'q=%r dt=%r: e = 0.98 and e = 0.98 - 1e-10 positions %r degrees apart' % (q, dt, d2)
+    if bad:
+        break
+if bad:
+    print('REPRODUCED %s: Minor.geocentric_position: %s' % (SITE, bad)); sys.exit(1)
 print('not reproduced'); sys.exit(0)
 '''
 
@@ -183,16 +232,267 @@ def task_planet(pl):
     return t
 
 
+RANGES = {'Mercury': ('0.30', '0.48'), 'Venus': ('0.71', '0.74'), 'Mars': ('1.37', '1.68'), 'Jupiter': ('4.9', '5.5'), 'Saturn': ('8.9', '10.2'),
+          'Uranus': ('18.1', '20.3'), 'Neptune': ('29.6', '30.5')}
+
+
+class GenAngle(object):
+    """stand-in for Angle inside the planet module for the full run: a plain value in degrees with the arithmetic the
+    method uses; Angle(x, radians=True) and Angle(0, 0, arcsec) are understood"""
+    def __init__(self, *a, **k):
+        if len(a) == 3:
+            self.v = a[0] + a[1] / 60.0 + a[2] / 3600.0
+        elif len(a) == 1:
+            v = a[0].v if isinstance(a[0], GenAngle) else a[0]
+            self.v = v * Num.const(1.0 / RAD) if k.get('radians') else v
+        else:
+            self.v = 0.0
+
+    def _o(self, o):
+        return o.v if isinstance(o, GenAngle) else o
+
+    def __add__(self, o):
+        return GenAngle(self.v + self._o(o))
+    __radd__ = __add__
+    __iadd__ = __add__
+
+    def __sub__(self, o):
+        return GenAngle(self.v - self._o(o))
+
+    def __rsub__(self, o):
+        return GenAngle(self._o(o) - self.v)
+
+    def __neg__(self):
+        return GenAngle(-self.v)
+
+    def rad(self):
+        return self.v * Num.const(RAD)
+
+    def to_positive(self):
+        return self
+
+    def __call__(self):
+        return self.v
+
+
+def task_sun_epoch(pl):
+    """the whole method with every callee uninterpreted: at which epoch is the Sun's apparent position asked for?"""
+    t = harness.Task('%s.geocentric_position (elongation)' % pl)
+    mod = loader.mod(pl)
+    E = loader.mod('Epoch')
+    Epoch = E.Epoch
+    cls = getattr(mod, pl)
+    j = Num.real_var('jde')
+    calls = []
+    saved = (Epoch.set, cls.geometric_heliocentric_position, mod.Earth.geometric_heliocentric_position, mod.Angle, mod.Sun.apparent_geocentric_position,
+             mod.nutation_longitude, mod.true_obliquity, mod.ecliptical2equatorial)
+
+    def set_summary(self, *args, **kw):
+        if len(args) == 1 and not kw and core.s_isinstance(args[0], (int, float)):
+            self._jde = args[0]
+            return
+        return saved[0](self, *args, **kw)
+    rlo, rhi = RANGES[pl]
+
+    def theory(who):
+        def f(epoch, *a, **k):
+            n = len(calls)
+            l, b, r = Num.real_var('l%d' % n), Num.real_var('b%d' % n), Num.real_var('r%d' % n)
+            if who == 'planet':
+                core.CUR.assume(z3.And(r.e >= z3.RealVal(rlo), r.e <= z3.RealVal(rhi)))
+            elif who == 'earth':
+                core.CUR.assume(z3.And(r.e >= z3.RealVal('0.98'), r.e <= z3.RealVal('1.02')))
+            calls.append((who, epoch._jde, l, b, r))
+            return GenAngle(l), GenAngle(b), (r if who != 'sun' else Num.const(1.0))
+        return f
+    q = Epoch()
+
+    def run():
+        del calls[:]
+        q._jde = j
+        cls.geocentric_position(q)
+        return list(calls)
+    Epoch.set = set_summary
+    cls.geometric_heliocentric_position = staticmethod(theory('planet'))
+    mod.Earth.geometric_heliocentric_position = staticmethod(theory('earth'))
+    mod.Angle = GenAngle
+    mod.Sun.apparent_geocentric_position = staticmethod(theory('sun'))
+    mod.nutation_longitude = lambda ep, *a, **k: GenAngle(Num.real_var('dpsi'))
+    mod.true_obliquity = lambda ep, *a, **k: GenAngle(Num.real_var('eps'))
+    mod.ecliptical2equatorial = lambda *a, **k: (GenAngle(Num.real_var('ra')), GenAngle(Num.real_var('dec')))
+    try:
+        ctx, paths = core.explore(run, [j.e >= 990557, j.e <= 3182396], trig='box', check_div0=False, timeout_ms=20000, max_paths=20, max_seconds=300)
+    finally:
+        (Epoch.set, cls.geometric_heliocentric_position, mod.Earth.geometric_heliocentric_position, mod.Angle, mod.Sun.apparent_geocentric_position,
+         mod.nutation_longitude, mod.true_obliquity, mod.ecliptical2equatorial) = saved
+    t.absorb_ctx(ctx, paths)
+    bd = '%s: every epoch of -2000..4000; heliocentric distance in [%s, %s] AU, Earth in [0.98, 1.02] AU; all callees uninterpreted' % (pl, rlo, rhi)
+    inp = lambda mo: {'kind': 'elong', 'planet': pl}
+    t.reach += 1
+    if len(paths) != 1 or paths[0].kind != 'ok':
+        t.ob('%s.geocentric_position: one path through the whole method' % pl, 'unknown', 0, bd)
+        t.notes.append('%s full run: %r' % (pl, [(p.kind, repr(p.exc)) for p in paths][:3]))
+        return t
+    p = paths[0]
+    cl = p.val
+    suns = [c for c in cl if c[0] == 'sun']
+    pcs = [c for c in cl if c[0] == 'planet']
+    ecs = [c for c in cl if c[0] == 'earth']
+    if len(suns) != 1 or len(pcs) != 2 or len(ecs) != 1:
+        t.ob('%s: the Sun is asked for once, the planet twice, the Earth once' % pl, 'unknown', 0, bd)
+        return t
+    je = j.e
+    se = core.lift(suns[0][1]).re()
+    D = (je - core.lift(pcs[1][1]).re()) / z3.RealVal('0.0057755183')
+    r1, r0 = pcs[0][4].e, ecs[0][4].e
+    tri = [D >= r1 - r0, D <= r1 + r0]      # triangle inequality for the true difference vector (not derivable under the box abstraction)
+    lim = z3.RealVal('0.0196')                # 0.02 degree at 1.02 degree/day
+    known = [k_ for k_ in harness.load_known() if k_.get('property') == PID and k_.get('status') == 'known' and k_.get('planet') == pl]
+    name = 'the Sun\'s apparent position is taken within 0.0196 day (0.02 degree) of the caller\'s epoch'
+    if known:
+        # recorded finding: it must still be there for EVERY admissible distance (then it is reported as KNOWN-FINDING after replay)
+        t.decide(ctx, p, 'recorded finding still present: the Sun is taken more than 0.0196 day from the caller\'s epoch@' + pl,
+                 z3.And(*(tri + [z3.Or(je - se > lim, se - je > lim)])), 'C09.elong', inp, 'elongation against the Sun at another epoch', bd, extra=(), timeout_ms=60000, retry=False)
+    else:
+        t.decide(ctx, p, name + '@' + pl, z3.And(*(tri + [z3.Or(je - se > lim, se - je > lim)])), 'C09.elong', inp, 'elongation against the Sun at another epoch', bd,
+                 timeout_ms=60000, retry=False)
+    t.notes.append('triangle inequality |r - r0| <= Delta <= r + r0 assumed for the difference vector (true for genuine sines/cosines)')
+    return t
+
+
+def task_minor(branch):
+    """Minor.geocentric_position up to the second `zeta = z + zs` (cut from the AST) on one concrete orbit per branch
+    (elliptic e = 0.5, near-parabolic e = 0.99, parabolic e = 1), symbolic epoch, Kepler solver / near-parabolic solver /
+    Sun's coordinates uninterpreted.  The second pass must place the body at  epoch - T - tau,  tau = 0.0057755183 * delta."""
+    t = harness.Task('Minor.geocentric_position (%s)' % branch)
+    mod = loader.mod('Minor')
+    AngleR = loader.mod('Angle').Angle
+    E = loader.mod('Epoch')
+    Epoch = E.Epoch
+    ecc = {'elliptic': 0.5, 'near-parabolic': 0.99, 'parabolic': 1.0}[branch]
+    qv, T0 = 1.25, 2450917.9358
+    body = mod.Minor(qv, ecc, AngleR(104.69219), AngleR(222.10887), AngleR(1.32431), Epoch(T0))
+    try:
+        head, _src = slicer.head_until('Minor', 'Minor.geocentric_position', 'zeta = z + zs', 'self, epoch', '(xi, eta, zeta, delta, tau, t_peri, xs, ys, zs)')
+    except core.EngineError as ex:
+        t.ob('Minor.geocentric_position: second pass found', 'unknown', 0, str(ex))
+        return t
+    j = Num.real_var('jde')
+    calls = []
+    saved = (Epoch.set, mod.Angle, mod.kepler_equation, mod.Minor._near_parabolic, mod.Sun.rectangular_coordinates_j2000)
+
+    def set_summary(self, *args, **kw):
+        if len(args) == 1 and not kw and core.s_isinstance(args[0], (int, float)):
+            self._jde = args[0]
+            return
+        return saved[0](self, *args, **kw)
+
+    def kep(e_, m_):
+        n_ = len(calls)
+        ee, v = Num.real_var('E%d' % n_), Num.real_var('v%d' % n_)
+        calls.append(('kepler', m_.v if isinstance(m_, GenAngle) else m_, ee, v))
+        return GenAngle(ee), GenAngle(v)
+
+    def nearp(self_, tp):
+        n_ = len(calls)
+        v, rr = Num.real_var('v%d' % n_), Num.real_var('rr%d' % n_)
+        core.CUR.assume(rr.e > 0)
+        calls.append(('nearp', tp, v, rr))
+        return GenAngle(v), rr
+
+    def sunxyz(ep):
+        xs, ys, zs = Num.real_var('xs'), Num.real_var('ys'), Num.real_var('zs')
+        calls.append(('sun', ep._jde, xs, ys, zs))
+        return xs, ys, zs
+    q = Epoch()
+    S, C, AT = core.MATH['sin'], core.MATH['cos'], core.MATH['atan']
+
+    def spec_vec(v_deg, rr):
+        wr = body._w.rad()
+        vr = v_deg * Num.const(RAD)
+        return (rr * body._am * S(body._aa + wr + vr), rr * body._bm * S(body._bb + wr + vr), rr * body._cm * S(body._cc + wr + vr))
+
+    def run():
+        del calls[:]
+        q._jde = j
+        out = head(body, q)
+        xi, eta, zeta, delta, tau, t_peri, xs, ys, zs = out
+        want_tp = j - T0 - Num.const(0.0057755183) * delta
+        if branch == 'parabolic':
+            ww = (0.03649116245 * want_tp) / (qv * core.MATH["sqrt"](qv))
+            sp = ww / 3.0
+            s_ = (2.0 * sp * sp * sp + ww) / (3.0 * (sp * sp + 1.0))
+            v_deg = (2.0 * AT(s_)) * Num.const(1.0 / RAD)
+            sv = spec_vec(v_deg, qv * (1.0 + s_ * s_))
+        elif branch == 'elliptic':
+            ks = [c for c in calls if c[0] == 'kepler']
+            ee2, v2 = ks[-1][2], ks[-1][3]
+            sv = spec_vec(v2, body._a * (1.0 - ecc * C(ee2 * Num.const(RAD))))
+        else:
+            ns = [c for c in calls if c[0] == 'nearp']
+            sv = spec_vec(ns[-1][2], ns[-1][3])
+        return out, list(calls), sv, want_tp, q._jde
+    Epoch.set = set_summary
+    mod.Angle = GenAngle
+    # the Newton iteration of the parabolic branch is cut after its first step: its exit test |s - sp| > tol is concretised to False
+    import builtins
+    mod.__dict__['abs'] = lambda x: builtins.abs(x) if not isinstance(x, Num) else 0.0
+    mod.kepler_equation = kep
+    mod.Minor._near_parabolic = nearp
+    mod.Sun.rectangular_coordinates_j2000 = staticmethod(sunxyz)
+    try:
+        ctx, paths = core.explore(run, [j.e >= T0 - 18262, j.e <= T0 + 18262], trig='box', check_div0=False, timeout_ms=20000, max_paths=20, max_seconds=300)
+    finally:
+        (Epoch.set, mod.Angle, mod.kepler_equation, mod.Minor._near_parabolic, mod.Sun.rectangular_coordinates_j2000) = saved
+        mod.__dict__.pop('abs', None)
+    t.absorb_ctx(ctx, paths)
+    bd = 'Minor, %s branch (e = %g, q = %g AU, one orientation): every epoch within 50 years of perihelion; solvers and Sun coordinates uninterpreted; sin/cos/atan boxed' % (branch, ecc, qv)
+    inp = lambda mo: {'kind': 'minor', 'branch': branch}
+    t.reach += 1
+    if len(paths) != 1 or paths[0].kind != 'ok':
+        t.ob('Minor.geocentric_position (%s): one path' % branch, 'unknown', 0, bd)
+        t.notes.append('Minor %s: %r' % (branch, [(p.kind, repr(p.exc)) for p in paths][:3]))
+        return t
+    p = paths[0]
+    out, cl, sv, want_tp, jafter = p.val
+    xi, eta, zeta, delta, tau, t_peri, xs, ys, zs = [core.lift(v).re() for v in out]
+    q_ = dict(timeout_ms=60000, retry=False)
+    suns = [c for c in cl if c[0] == 'sun']
+    t.decide(ctx, p, 'Minor (%s): the Sun\'s coordinates are taken once, at the caller\'s epoch' % branch,
+             z3.BoolVal(len(suns) != 1) if len(suns) != 1 else core.lift(suns[0][1]).re() != j.e, 'C09.minor', inp, 'Sun epoch', bd, **q_)
+    wt = core.lift(want_tp).re()
+    t.decide(ctx, p, 'Minor (%s): second pass at epoch - T - tau, tau = 0.0057755183 * delta' % branch,
+             z3.Or(t_peri != wt, tau != z3.RealVal('0.0057755183') * delta), 'C09.minor', inp, 'retarded time', bd, **q_)
+    if branch == 'elliptic':
+        ks = [c for c in cl if c[0] == 'kepler']
+        arg = z3.BoolVal(True) if len(ks) != 2 else core.lift(ks[1][1]).re() != wt * core.lift(Num.const(body._n)).re()
+        t.decide(ctx, p, 'Minor (elliptic): Kepler\'s equation is solved again for the mean anomaly at the retarded time', arg, 'C09.minor', inp, 'kepler argument', bd, **q_)
+    elif branch == 'near-parabolic':
+        ns = [c for c in cl if c[0] == 'nearp']
+        arg = z3.BoolVal(True) if len(ns) != 2 else core.lift(ns[1][1]).re() != wt
+        t.decide(ctx, p, 'Minor (near-parabolic): the near-parabolic solver is called again with the retarded time', arg, 'C09.minor', inp, 'solver argument', bd, **q_)
+    t.decide(ctx, p, 'Minor (%s): final vector = body(retarded time) + Sun(t), component by component' % branch,
+             z3.Or(*[a != core.lift(b).re() + c for a, b, c in zip((xi, eta, zeta), sv, (xs, ys, zs))]), 'C09.minor', inp, 'final vector', bd, **q_)
+    t.decide(ctx, p, 'Minor (%s): the caller\'s Epoch is not shifted' % branch, core.lift(jafter).re() != j.e, 'C09.minor', inp, 'caller epoch', bd, **q_)
+    t.reach += 5
+    return t
+
+
+def dispatch(job):
+    k, a = job
+    return {'wiring': task_planet, 'sun': task_sun_epoch, 'minor': task_minor}[k](a)
+
+
 def main(tier):
     loader.install()
     chk = harness.Check(PID, tier)
-    chk.replays = {'C09.wiring': REPLAY}
-    chk.functions = ['%s.geocentric_position (head, up to the second difference vector)' % pl for pl in PLANETS]
-    chk.run(task_planet, PLANETS, 'light-time wiring of 7 planets')
+    chk.replays = {'C09.wiring': REPLAY, 'C09.elong': REPLAY, 'C09.minor': MINOR_REPLAY}
+    chk.functions = ['%s.geocentric_position (head, up to the second difference vector; whole method for the call epochs)' % pl for pl in PLANETS] + ['Minor.geocentric_position (up to the second zeta)']
+    chk.run(dispatch, [('wiring', pl) for pl in PLANETS] + [('sun', pl) for pl in PLANETS] + [('minor', b) for b in ('elliptic', 'near-parabolic', 'parabolic')], 'light-time wiring of 7 planets; epoch of the Sun in the elongation')
     chk.bounds = {'epoch': 'every JDE of years -2000..4000 (symbolic real)', 'planets': PLANETS}
     chk.stubs = ['<Planet>.geometric_heliocentric_position and Earth.geometric_heliocentric_position -> uninterpreted theory: fresh symbolic (l, b, r) per call, epoch recorded',
                  'sin/cos -> boxes in [-1, 1] keyed by their argument; sqrt -> fresh non-negative real with its square; Epoch(number) -> stores the JDE (C02)']
     chk.outside = ['everything after the difference vector: aberration, FK5, nutation, conversion to equatorial coordinates (C05 decides ecliptical2equatorial itself), elongation value and its limits for Mercury / Venus',
-                   'Pluto and minor bodies (different code: fixed-point iterations on series / Kepler solutions)', 'every clause on VALUES of the series']
+                   'Pluto; minor bodies on other orbits than the three concrete ones; later steps of the parabolic Newton iteration', 'every clause on VALUES of the series']
     chk.assumptions = ['real arithmetic; box abstraction: equal arguments give the same box, so the component identities are polynomial identities in the boxes']
     return chk.finish()
